@@ -8,6 +8,7 @@
 From mathcomp Require Import all_ssreflect all_algebra.
 From SsrMultinomials Require Import mpoly.
 From NP Require Import Base Poly Rearr Reduce Abs Align RearrP ReduceP DetP.
+From NP Require Import GenSource BridgeSrcC10.
 Set Implicit Arguments. Unset Strict Implicit. Unset Printing Implicit Defensive.
 Import GRing.Theory.
 Local Open Scope ring_scope.
@@ -75,6 +76,11 @@ Theorem C10_det_recursion o bs fuel d (M : seq (seq (parr R))) r :
 Proof. exact: pdetM_spec. Qed.
 End C10.
 
+(* the /repo functions this model was written from are still, statement by statement, the modelled ones *)
+Theorem C10_sources_are_the_modelled_ones :
+  all (all id) [:: gen_src_prod; gen_src__prod; gen_src_matmul; gen_src_det; gen_src_inner; gen_src_outer; gen_src_diff; gen_src_ediff1d] /\ [seq size f | f <- [:: gen_src_prod; gen_src__prod; gen_src_matmul; gen_src_det; gen_src_inner; gen_src_outer; gen_src_diff; gen_src_ediff1d]] = [:: 5; 7; 9; 10; 2; 4; 5; 10]%N.
+Proof. exact: bridge_src_C10. Qed.
+
 Print Assumptions C10_linear.
 Print Assumptions C10_linear_total.
 Print Assumptions C10_sum.
@@ -84,3 +90,4 @@ Print Assumptions C10_det1.
 Print Assumptions C10_det2.
 Print Assumptions C10_det.
 Print Assumptions C10_det_recursion.
+Print Assumptions C10_sources_are_the_modelled_ones.
